@@ -22,7 +22,7 @@ def _macro_bodies(txt):
 
 def all_harnesses():
     names = []
-    src = os.path.join(HERE, "harness", "src")
+    src = os.path.join(os.environ.get("VERIF_HARNESS", os.path.join(HERE, "harness")), "src")
     for f in sorted(os.listdir(src)):
         if not f.endswith(".rs"): continue
         mod = f[:-3]
